@@ -6,6 +6,8 @@ Lean: lean/N0Verif/Model/Tlv.lean, Model/Fwf.lean, Proofs/Tlv.lean, Proofs/Fwf.l
       C16_generated_step_eq / _cond_eq / _parse_eq prove it equal to Tlv.step / Tlv.loop, C16_tlv_terminates_generated transfers termination.
       Gen/TlvGenPy.lean is regenerated from the source of generate_tlv (harness/translate_py_tlvgen.py);
       C16_generated_gen_entry_eq / _entries_eq / _guard_eq / _guard_skips / _eq prove it equal to Tlv.genEntry / genEntries / lenPadOk / generateTlv.
+      Gen/FwfPy.lean is regenerated from two fragments of parse_fwf_row / generate_fwf_row (harness/translate_py_fwf.py);
+      C16_generated_fwf_slice_eq / C16_generated_gen_fwf_cell_eq prove them equal to Fwf.colValue / Fwf.place.
 B streams: tlv.int, tlv.parse (generated / mutated / soup / exhaustive), tlvpy.parse (the translated generator), tlv.gen, tlvgenpy.gen (the translated writer), fwf.parse, fwf.gen, fwf.load
 C evaluators: tlv_roundtrip (round trip + refusal), tlv_tiling (termination + tiling on arbitrary input),
               fwf_roundtrip, fwf_every_row_once
@@ -18,6 +20,7 @@ import tempfile
 from harness import core
 from harness import translate_py_tlv as trtlv
 from harness import translate_py_tlvgen as trgen
+from harness import translate_py_fwf as trfwf
 from harness.core import enc_str, enc_val
 
 MANIFEST = dict(
@@ -34,6 +37,9 @@ MANIFEST = dict(
          "which width check raises, paddings, concatenation), C16_generated_gen_entries_eq (the join over the items = Tlv.genEntries), C16_generated_gen_guard_eq (statements in front of the return = "
          "the probe Tlv.lenPadOk; C16_generated_gen_guard_skips: a padding that is not one character is not probed) and C16_generated_gen_eq (translated generate_tlv = Tlv.generateTlv), "
          "for natural widths and one-character paddings; stream tlvgenpy.gen compares the translated writer with the real one (also with paddings that are not one character). "
+         "Fixed-width: harness/translate_py_fwf.py re-translates two fragments into Gen/FwfPy.lean - the slice computation of parse_fwf_row (offset / width / till -> incoming_row[offset:till]) and the "
+         "cell rendering of generate_fwf_row (str(), zfill / ljust, truncation, splice into rendered_row) - and Lean re-checks C16_generated_fwf_slice_eq (= Fwf.colValue, never raises) and "
+         "C16_generated_gen_fwf_cell_eq (= Fwf.place); the rest of the two functions (eval of validations / mappings, the column loops, dict handling) stays differential only. "
          "Proved in Lean (unbounded in input length, number of entries, columns and lines; Props/C16.lean, nothing stated-but-not-proved): "
          "C16_tlv_tiles - for EVERY function used as int() that rejects the empty string, every input string and all field widths, "
          "parse_tlv (with fix C16-a: negative length -> ValueError) ends normally or with ValueError, never runs out of fuel, the "
@@ -96,6 +102,7 @@ def _translate_one(ctx, mod, lean_file, module):
 def translate(ctx):
     ctx.extra["translated"] = _translate_one(ctx, trtlv, "lean/N0Verif/Gen/TlvPy.lean", "N0Verif.Gen.TlvPy")
     ctx.extra["translated_writer"] = _translate_one(ctx, trgen, "lean/N0Verif/Gen/TlvGenPy.lean", "N0Verif.Gen.TlvGenPy")
+    ctx.extra["translated_fwf"] = _translate_one(ctx, trfwf, "lean/N0Verif/Gen/FwfPy.lean", "N0Verif.Gen.FwfPy")
 
 
 def tlvpy_parse_canon(c):
@@ -754,6 +761,7 @@ def replay(rp):
         try:
             trtlv.translate_source(open(os.path.join(core.REPO, trtlv.SRC), encoding="utf-8").read())
             trgen.translate_source(open(os.path.join(core.REPO, trgen.SRC), encoding="utf-8").read())
+            trfwf.translate_source(open(os.path.join(core.REPO, trfwf.SRC), encoding="utf-8").read())
         except trtlv.TranslateError as e:
             print("translator:", e)
             return 1
@@ -763,6 +771,7 @@ def replay(rp):
         try:
             trtlv.regenerate(core.REPO)
             trgen.regenerate(core.REPO)
+            trfwf.regenerate(core.REPO)
         except trtlv.TranslateError as e:
             print("translator:", e)
             return 1
@@ -810,6 +819,7 @@ def _run(ctx):
             "first_errors": [l[:240] for l in log.split("\n") if l.startswith("error: N0Verif")][:6],
             "generated_text_differs_from_unchanged_code": ctx.extra.get("translated", {}).get("differs_from_unchanged_code"),
             "generated_writer_text_differs_from_unchanged_code": ctx.extra.get("translated_writer", {}).get("differs_from_unchanged_code"),
+            "generated_fwf_text_differs_from_unchanged_code": ctx.extra.get("translated_fwf", {}).get("differs_from_unchanged_code"),
         }
     n = ctx.budget(3000, 40000)
 
